@@ -645,6 +645,11 @@ func mapAggregateNestedTargets(
 
 	if target.filter.HasValue() {
 		for topKey, topCond := range target.filter.Value().Conditions {
+			if topKey == request.FilterOpNot || topKey == request.AliasFieldName {
+				// an operator whose value is a filter object, not a relation field: its inner
+				// dependencies are resolved by resolveFilterDependencies
+				continue
+			}
 			switch cond := topCond.(type) {
 			case map[string]any:
 				for _, innerCond := range cond {
